@@ -100,8 +100,8 @@ def get_aggregates(req):
 
 
 @wsgi_wrapper.PlacementWsgify
-@util.require_content('application/json')
 @microversion.version_handler('1.1')
+@util.require_content('application/json')
 def set_aggregates(req):
     context = req.environ['placement.context']
     context.can(policies.UPDATE)
